@@ -234,6 +234,24 @@ func TestVerifC13Scan(t *testing.T) {
 			rec.Class("materialize-failed")
 			return
 		}
+		// one case in thirty-two: some files carry a modification time ahead of the clock (copied
+		// from a machine in another time zone, clock skew); the second scan then runs in another
+		// second of wall-clock time
+		futureTimes := rapid.IntRange(0, 31).Draw(rt, "future_mtimes") == 7
+		if futureTimes {
+			k := int64(0)
+			filepath.Walk(dir, func(path string, fi os.FileInfo, err error) error {
+				if err == nil && fi.Mode().IsRegular() {
+					k++
+					if k%2 == 1 {
+						ts := time.Now().Add(36*time.Hour + time.Duration(k)*7*time.Second).Truncate(time.Second)
+						os.Chtimes(path, ts, ts)
+					}
+				}
+				return nil
+			})
+			rec.Class("files-with-future-mtime")
+		}
 		// build the argument list
 		var paths, absTargets []string
 		classes := map[string]bool{}
@@ -475,6 +493,9 @@ func TestVerifC13Scan(t *testing.T) {
 			return
 		}
 		// (5) determinism
+		if futureTimes {
+			time.Sleep(1050 * time.Millisecond)
+		}
 		m2, _ := manifest.ScanPaths(paths)
 		if !reflect.DeepEqual(m, m2) {
 			rec.Fail(rt, "rescan-differs", "scanning the same unchanged paths again gave another manifest | "+desc)
